@@ -59,6 +59,7 @@ type Contract struct {
 	NativeStr    bool
 	Props        []string // property ids this contract serves
 	Asserts      []*Clause
+	Observe      map[string]string // callee short name -> ghost variable holding its last result
 	Before       map[string][]*Clause // callee short name -> assertions checked before each call
 	resolved     bool
 }
@@ -113,6 +114,7 @@ type PkgSpec struct {
 	Monitors  map[string][]string // "T.mu" -> invariant predicate names
 	Relies    map[string]string   // "T.mu" -> two-state predicate (old() = state at acquisition)
 	PureExt   []string
+	Immutable map[string][]string // type name -> fields never written after construction
 	Lemmas    []*Lemma
 	RecFuncs  map[string]*RecFunc
 	File      string
@@ -126,7 +128,7 @@ type RecFunc struct {
 	Body   string // SMT body (raw)
 }
 
-var clauseKW = regexp.MustCompile(`^(requires|ensures|modifies|held|acquires|loop|option|props|assert|before)\b`)
+var clauseKW = regexp.MustCompile(`^(requires|ensures|modifies|held|acquires|loop|option|props|assert|before|observe)\b`)
 var labelRe = regexp.MustCompile(`^([A-Za-z][A-Za-z0-9_\-]*):\s+(.*)$`)
 
 func parseClause(src string, line int) (*Clause, error) {
@@ -149,7 +151,7 @@ func parseContractFile(path, pkgPath string) (*PkgSpec, error) {
 	if err != nil {
 		return nil, err
 	}
-	ps := &PkgSpec{Path: pkgPath, Contracts: map[string]*Contract{}, Preds: map[string]*Pred{}, Guarded: map[string][]string{}, Monitors: map[string][]string{}, Relies: map[string]string{}, RecFuncs: map[string]*RecFunc{}, File: path}
+	ps := &PkgSpec{Path: pkgPath, Contracts: map[string]*Contract{}, Preds: map[string]*Pred{}, Guarded: map[string][]string{}, Monitors: map[string][]string{}, Relies: map[string]string{}, Immutable: map[string][]string{}, RecFuncs: map[string]*RecFunc{}, File: path}
 	text := string(data)
 	lines := strings.Split(text, "\n")
 	in := false
@@ -178,7 +180,7 @@ func parseContractFile(path, pkgPath string) (*PkgSpec, error) {
 		if k := strings.Index(t, " // "); k >= 0 {
 			t = strings.TrimSpace(t[:k])
 		}
-		top := strings.HasPrefix(t, "func ") || strings.HasPrefix(t, "pred ") || strings.HasPrefix(t, "guarded_by ") || strings.HasPrefix(t, "monitor ") || strings.HasPrefix(t, "pure ") || strings.HasPrefix(t, "lemma ") || strings.HasPrefix(t, "extern ") || strings.HasPrefix(t, "recfunc ") || strings.HasPrefix(t, "end")
+		top := strings.HasPrefix(t, "func ") || strings.HasPrefix(t, "pred ") || strings.HasPrefix(t, "guarded_by ") || strings.HasPrefix(t, "immutable ") || strings.HasPrefix(t, "monitor ") || strings.HasPrefix(t, "pure ") || strings.HasPrefix(t, "lemma ") || strings.HasPrefix(t, "extern ") || strings.HasPrefix(t, "recfunc ") || strings.HasPrefix(t, "end")
 		if top || clauseKW.MatchString(t) || strings.HasPrefix(t, "var ") || strings.HasPrefix(t, "assume ") || strings.HasPrefix(t, "goal ") || strings.HasPrefix(t, "smt ") || strings.HasPrefix(t, "solver ") {
 			items = append(items, item{i + 1, t})
 		} else if len(items) > 0 {
@@ -217,6 +219,14 @@ func parseContractFile(path, pkgPath string) (*PkgSpec, error) {
 			}
 			for _, f := range strings.Split(m[2], ",") {
 				ps.Guarded[m[1]] = append(ps.Guarded[m[1]], strings.TrimSpace(f))
+			}
+		case strings.HasPrefix(t, "immutable "):
+			m := regexp.MustCompile(`^immutable\s+(\S+)\s*:\s*(.*)$`).FindStringSubmatch(t)
+			if m == nil {
+				return nil, fail(fmt.Errorf("bad immutable"))
+			}
+			for _, f := range strings.Split(m[2], ",") {
+				ps.Immutable[m[1]] = append(ps.Immutable[m[1]], strings.TrimSpace(f))
 			}
 		case strings.HasPrefix(t, "monitor "):
 			m := regexp.MustCompile(`^monitor\s+(\S+)\s+(inv|rely)\s+(\S+)$`).FindStringSubmatch(t)
@@ -322,6 +332,16 @@ func parseContractFile(path, pkgPath string) (*PkgSpec, error) {
 				cur.Before = map[string][]*Clause{}
 			}
 			cur.Before[rest[:k]] = append(cur.Before[rest[:k]], c)
+		case strings.HasPrefix(t, "observe "):
+			// observe late := IsEventTimeLate
+			m := regexp.MustCompile(`^observe\s+([A-Za-z_][A-Za-z0-9_]*)\s*:=\s*(\S+)$`).FindStringSubmatch(t)
+			if m == nil {
+				return nil, fail(fmt.Errorf("bad observe clause"))
+			}
+			if cur.Observe == nil {
+				cur.Observe = map[string]string{}
+			}
+			cur.Observe[m[2]] = m[1]
 		case strings.HasPrefix(t, "acquires "):
 			e, err := parseSpecExpr(strings.TrimSpace(strings.TrimPrefix(t, "acquires ")))
 			if err != nil {
